@@ -91,6 +91,17 @@ func pickCase(r *hxlib.Rng, idx int, corp []progCase) progCase {
 	}
 }
 
+// Hang detection limits.  A healthy session takes well under a second of CPU;
+// first run: no observable progress for a minute (or 10 minutes in all) makes
+// it a suspect; re-run alone: 2 minutes without progress (20 minutes in all)
+// confirm the hang.
+const (
+	firstStall   = 60 * time.Second
+	firstHardCap = 10 * time.Minute
+	aloneStall   = 120 * time.Second
+	aloneHardCap = 20 * time.Minute
+)
+
 func sessMode(args []string) {
 	cf, o := hxlib.ParseCommon("sess", args, nil)
 	defer o.Close()
@@ -99,8 +110,10 @@ func sessMode(args []string) {
 	corp := corpus()
 
 	type job struct {
-		cfg *sessCfg
-		so  *sessOut
+		cfg           *sessCfg
+		so            *sessOut
+		firstPhase    string
+		firstStalledS float64
 	}
 	jobs := make([]*job, cf.N)
 	workers := 4
@@ -112,15 +125,52 @@ func sessMode(args []string) {
 	}
 	sem := make(chan struct{}, workers)
 	var wg sync.WaitGroup
-	var timeouts int32
+	// A session that stalls is only a SUSPECT (the machine may be loaded):
+	// no further session is launched, the running ones drain, and the suspect
+	// is re-run ALONE with much longer limits.  Only a hang confirmed by that
+	// run is reported; after the first confirmed hang nothing more is launched,
+	// so a real deadlock costs a bounded time.
+	var suspect int32
+	var mu sync.Mutex
+	var suspects []*job
+	confirmed := false
+	resolveSuspects := func() {
+		wg.Wait()
+		mu.Lock()
+		list := suspects
+		suspects = nil
+		mu.Unlock()
+		atomic.StoreInt32(&suspect, 0)
+		for _, j := range list {
+			if confirmed {
+				j.so = nil
+				o.Count("sessions_skipped_after_confirmed_hang")
+				continue
+			}
+			o.Count("sessions_stalled_rerun_alone")
+			first := j.so
+			c2 := *j.cfg
+			c2.stall, c2.hardCap = aloneStall, aloneHardCap
+			j.so = runSession(&c2)
+			if j.so.timeout != "" {
+				confirmed = true
+				j.firstPhase, j.firstStalledS = first.timeout, first.stalledS
+				j.cfg = &c2
+			} else {
+				o.Count("stall_not_reproduced_alone_" + first.timeout)
+			}
+		}
+	}
 	for idx := 0; idx < cf.N; idx++ {
 		r := root.Fork()
 		if cf.Only >= 0 && idx != cf.Only {
 			continue
 		}
-		if atomic.LoadInt32(&timeouts) >= 3 {
-			// systematic hang: every further session would sit out its deadline
-			o.Count("sessions_skipped_after_3_timeouts")
+		if atomic.LoadInt32(&suspect) != 0 {
+			resolveSuspects()
+		}
+		if confirmed {
+			o.Count("sessions_skipped_after_confirmed_hang")
 			continue
 		}
 		pc := pickCase(r, idx, corp)
@@ -133,10 +183,7 @@ func sessMode(args []string) {
 			pc.circ = c
 		}
 		n := len(pc.circ.Inputs)
-		cfg := &sessCfg{idx: idx, pc: pc, deadline: 60 * time.Second}
-		if cf.Tier == "thorough" {
-			cfg.deadline = 120 * time.Second
-		}
+		cfg := &sessCfg{idx: idx, pc: pc, stall: firstStall, hardCap: firstHardCap}
 		for p := 0; p < n; p++ {
 			cfg.inputs = append(cfg.inputs, randInput(r, int(pc.circ.Inputs[p].Type.Bits)))
 		}
@@ -176,14 +223,21 @@ func sessMode(args []string) {
 			defer func() { <-sem }()
 			j.so = runSession(j.cfg)
 			if j.so.timeout != "" {
-				atomic.AddInt32(&timeouts, 1)
+				mu.Lock()
+				suspects = append(suspects, j)
+				mu.Unlock()
+				atomic.StoreInt32(&suspect, 1)
 			}
 		}()
 	}
-	wg.Wait()
+	resolveSuspects()
 	for _, j := range jobs {
 		if j == nil || j.so == nil {
 			continue
+		}
+		if j.so.timeout != "" {
+			o.Meta["confirmed_hang"] = map[string]any{"case": j.cfg.idx, "first_run_phase": j.firstPhase,
+				"first_run_idle_s": j.firstStalledS, "alone_phase": j.so.timeout, "alone_idle_s": j.so.stalledS}
 		}
 		evaluate(o, cf, j.cfg, j.so)
 	}
@@ -253,7 +307,9 @@ func evaluate(o *hxlib.Out, cf *hxlib.CommonFlags, cfg *sessCfg, so *sessOut) {
 		o.Count("sessions_ge8_and_levels")
 	}
 	if so.timeout != "" {
-		o.Fail("c10-timeout", with(base, "phase", so.timeout, "deadline_s", cfg.deadline.Seconds()))
+		o.Fail("c10-timeout", with(base, "phase", so.timeout, "no_progress_s", so.stalledS, "stall_limit_s", cfg.stall.Seconds(),
+			"hard_cap_s", cfg.hardCap.Seconds(), "confirmed", "re-run alone (no other session in the harness): no bytes moved on any "+
+				"connection, no pool level changed and no party finished a phase for the stall limit"))
 		return
 	}
 	for p := 0; p < n; p++ {
